@@ -17,7 +17,23 @@ from ..report import Report
 from .c01 import FUNCS
 
 
-def make_spec(shape_kind, hier):
+ALT = {'a0': 'pc', 'a1': 'ein', 'a2': 'iin', 'b0': 'zb'}     # declaration order differs from alphabetical order
+
+
+def make_spec(shape_kind, hier, alt=False):
+    spec = _make_spec(shape_kind, hier)
+    if not alt:
+        return spec
+
+    def ren(path):
+        parts = path.split('/')
+        return '/'.join(ALT.get(q, q) for q in parts)
+    nodes = {ren(n): ns for n, ns in spec.nodes.items()}
+    edges = [EdgeSpec(ren(e.src), ren(e.tgt), e.weight) for e in spec.edges]
+    return ModelSpec('m', spec.ops, nodes, edges)
+
+
+def _make_spec(shape_kind, hier):
     fp = FP()
     li = families.op_leaky(fp)
     li.vars['u'] = ('input', F(0))
@@ -52,7 +68,7 @@ def targets_of(spec, target):
 
 
 def input_job(job):
-    spec = make_spec(None, job['hier'])
+    spec = make_spec(None, job['hier'], job.get('alt', False))
     N, cols = job['N'], job['cols']
     shape = (N,) if cols == 0 else (N, cols)
     # fingerprinted input samples (dyadic, disjoint from the spec's (2k+35)/16 pool: use /64 with odd numerators)
@@ -71,14 +87,24 @@ def input_job(job):
     if job.get('backend') == 'fortran':
         from .. import f2pystub
         f2pystub.install()
+    Tsim = dt * N
     try:
-        c = tv.compile_template(ct, vectorize=job['vectorize'], step_size=float(dt), solver=job['solver'],
-                                inputs={job['target']: arr}, backend=job.get('backend', 'default'))
+        if job.get('via') == 'run':
+            # through run(): simulation_time is given explicitly and (adaptive solver) need not be N*step_size
+            Tsim = dt * job.get('T_steps', N)
+            first = next(iter(spec.nodes))
+            c = tv.capture_run(ct, simulation_time=float(Tsim), step_size=float(dt), solver=job['solver'],
+                               inputs={job['target']: arr}, vectorize=job['vectorize'],
+                               outputs={'o': f"{first}/{spec.nodes[first].ops[0]}/x"})
+        else:
+            c = tv.compile_template(ct, vectorize=job['vectorize'], step_size=float(dt), solver=job['solver'],
+                                    inputs={job['target']: arr}, backend=job.get('backend', 'default'))
     except tv.CompileError as e:
         out['compile_error'] = str(e)
         out['tally'] = tally.as_dict()
         return out
     out['src'] = c.src
+    vz = True if job.get('via') == 'run' else job['vectorize']    # run() exposes no state map: positions by value only
     tnodes, op, var = targets_of(spec, job['target'])
     ncol = 1 if cols in (0, 1) else cols
 
@@ -99,11 +125,11 @@ def input_job(job):
             # the step counter handed to the function is t0 + k (t0 = returned initial counter: 0 for the Python
             # backends, 1 for Fortran, whose arrays are 1-based)
             t0 = int(np.asarray(c.args[0]).reshape(-1)[0])
-            res = tvspec.validate(spec, c, tally, vectorized=job['vectorize'], ext_inputs=ext_for(vals), t_sym=int(k) + t0,
+            res = tvspec.validate(spec, c, tally, vectorized=vz, ext_inputs=ext_for(vals), t_sym=int(k) + t0,
                                   extra_table=table, twin=(k == 0), label=f"@step{k}")
             _merge(out, res, f"step {k}")
     else:
-        T = dt * N
+        T = Tsim
         t = symx.real('t')
         grid = [symx.val(T * F(j, N - 1)) for j in range(N)]
         vals = []
@@ -112,7 +138,7 @@ def input_job(job):
             vals.append(libmodels.m_interp(t, grid, col))
         # t in [0, T] plus one obligation each for t < 0 and t > T (clamping is part of np.interp's definition; the
         # property speaks about [0, T] only, so those are not claimed)
-        res = tvspec.validate(spec, c, tally, vectorized=job['vectorize'], ext_inputs=ext_for(vals), t_sym=t,
+        res = tvspec.validate(spec, c, tally, vectorized=vz, ext_inputs=ext_for(vals), t_sym=t,
                               extra_table=table, extra_assumptions=[t.e >= 0, t.e <= symx.lift(T)], label='@t')
         _merge(out, res, 'symbolic t in [0,T]')
     out['tally'] = tally.as_dict()
@@ -149,6 +175,22 @@ def jobs_for(tier):
                                       N=N, cols=cols, solver=solver, vectorize=vec, hier=hier))
     if tier == 'quick':
         J = [j for i, j in enumerate(J) if i % 3 == 0]
+    # node names whose declaration order is not their alphabetical order (one column per node follows declaration order)
+    for solver in ('euler', 'scipy'):
+        J.append(dict(key=f"in:all/li/u:N=3:cols=3:{solver}:vec=True:alt-names", target='all/li/u', N=3, cols=3,
+                      solver=solver, vectorize=True, hier=False, alt=True))
+        J.append(dict(key=f"in:all/li/u:N=4:cols=0:{solver}:vec=True:alt-names", target='all/li/u', N=4, cols=0,
+                      solver=solver, vectorize=True, hier=False, alt=True))
+    # through run(): fixed step with N = T/dt samples; adaptive with FEWER / MORE samples than T/dt
+    for vec in (True, False):
+        J.append(dict(key=f"in:a0/li/u:N=4:cols=0:euler:vec={vec}:via-run", target='a0/li/u', N=4, cols=0, solver='euler',
+                      vectorize=vec, hier=False, via='run'))
+        for N, Ts in ((3, 8), (5, 4), (4, 4)) if tier == 'quick' else ((3, 8), (5, 4), (4, 4), (2, 6), (7, 3)):
+            J.append(dict(key=f"in:a0/li/u:N={N}:cols=0:scipy:vec={vec}:via-run:T={Ts}dt", target='a0/li/u', N=N, cols=0,
+                          solver='scipy', vectorize=vec, hier=False, via='run', T_steps=Ts))
+        if vec:
+            J.append(dict(key=f"in:all/li/u:N=3:cols=3:scipy:vec=True:via-run:T=6dt", target='all/li/u', N=3, cols=3,
+                          solver='scipy', vectorize=True, hier=False, via='run', T_steps=6))
     return J
 
 
